@@ -184,4 +184,29 @@ def tensorGroupB (g : GroupDesc) (st : GenState) : Bool :=
      (fwExprs g st g.blocks).all (fun fw => !mentionsE aName fw && fam.all (fun n => !mentionsE n fw))
    | _, _ => false)
 
+/-- `blockmap[0] == blockmap[1]` for one block (the guard of `generate_dofblock_partition` for `diagonal`) -/
+def coincidentBlock (b : BlockData) : Bool :=
+  match b.args with
+  | [a0, a1] => a0.table.offset == a1.table.offset && a0.table.blockSize == a1.table.blockSize &&
+      a0.table.ndofs == a1.table.ndofs
+  | _ => false
+
+/-- the two block maps of a block have no common global dof number (e.g. different components of a
+    blocked element, different sub-elements of a mixed element) -/
+def disjointMapsB (n0 n1 : Nat) (b : BlockData) : Bool :=
+  match b.args with
+  | [a0, a1] => (List.range n0).all (fun i => (List.range n1).all (fun j =>
+      (if n0 == 1 then (i : Int) + a0.table.offset else a0.table.blockSize * (i : Int) + a0.table.offset) !=
+      (if n1 == 1 then (j : Int) + a1.table.offset else a1.table.blockSize * (j : Int) + a1.table.offset)))
+  | _ => false
+
+/-- the diagonal kernel's group is the full kernel's group restricted to the coincident blocks, and the
+    dropped blocks cannot touch the diagonal (decidable; checked on every real full/diagonal pair) -/
+def diagonalPairB (gF gD : GroupDesc) : Bool :=
+  decide (gD.blocks.map (fun b => (b.args, b.factorIndex)) =
+    (gF.blocks.filter coincidentBlock).map (fun b => (b.args, b.factorIndex))) &&
+  (match gF.bmLens with
+   | [n0, n1] => (gF.blocks.filter (fun b => !coincidentBlock b)).all (disjointMapsB n0 n1)
+   | _ => false)
+
 end Ffcx.Codegen
